@@ -303,6 +303,8 @@ def py_call_src(form, uname, has_out, initial=None):
         return f"operator.{OPS[uname][1]}(a, b)"
     if form == "reduceat":
         return f"np.{uname}.reduceat(a, b)"
+    if form == "at":
+        return f"np.{uname}.at(a, [0], b)"
     raise KeyError(form)
 
 
@@ -402,6 +404,8 @@ def probe_kernel(E, case, objs):
                     r = uf.outer(a, b, **kw)
                 elif form == "reduceat":
                     r = uf.reduceat(a, b, **kw)
+                elif form == "at":
+                    r = uf.at(np.array(a), [0], b)
                 else:
                     r = uf(a, b, **kw)
         r0 = r[0] if isinstance(r, tuple) else r
@@ -511,6 +515,8 @@ class Ufuncs:
                 counter += 1
             for fi in [counter % len(fams)]:
                 self.add_binary(uname, "reduceat", "same", "barearr", fams[fi], ("v", "v"), reduceat=True)
+                for kb in ("same", "diffdim", "scalar"):
+                    self.add_binary(uname, "at", "same", kb, fams[fi], ("v", "s"))
         for uname in unary:
             for ka in ("same", "samedim", "dimless", "percent", "zero_unyt", "same_int"):
                 for form in ("call1", "out1"):
@@ -555,8 +561,10 @@ class Ufuncs:
                     self.add_binary(uname, "outer", "same", "diffdim", fam, ("v", "v"))
 
     def add_binary(self, uname, form, ka, kb, fam, shp, initial=False, reduceat=False):
-        if getattr(np, uname).signature is not None and form in ("outer", "reduce", "accumulate", "reduceat", "inplace"):
+        if getattr(np, uname).signature is not None and form in ("outer", "reduce", "accumulate", "reduceat", "inplace", "at"):
             return  # NumPy has no such method for generalised ufuncs
+        if form == "at" and getattr(np, uname).nout != 1:
+            return  # NumPy: "Only single output ufuncs supported" (raised before dispatch)
         sa = operand_src(ka, "a", shp[0], fam)
         sb = operand_src(kb, "b", shp[1], fam)
         if sa is None or sb is None:
@@ -593,10 +601,17 @@ class Ufuncs:
                            "setup": setup, "call": call, "nin": 1, "initial": False, "with_out": with_out})
 
     # -- execution -----------------------------------------------------------------------
-    def execute(self):
+    def execute(self, part=0, nparts=1, batch=15000):
+        """run the cases of this worker's share (every nparts-th case), in batches"""
+        mine = self.cases[part::nparts]
+        self.cases = []
+        for i in range(0, len(mine), batch):
+            self.execute_batch(mine[i:i + batch])
+
+    def execute_batch(self, cases):
         E, chk = self.E, self.chk
         lines = []
-        for c in self.cases:
+        for c in cases:
             pre = self.fresh(c)                      # operands as they are before the call
             a = pre["a"]
             b = pre.get("b")
@@ -608,8 +623,12 @@ class Ufuncs:
             c["reaches_unyt"] = any(isinstance(x, E.unyt_array) for x in (a, b, pre.get("o")))
             method = {"call": "__call__", "call1": "__call__", "out": "__call__", "out1": "__call__", "operator": "__call__",
                       "inplace": "__call__", "outer": "outer", "reduce": "reduce", "accumulate": "accumulate",
-                      "reduceat": "reduceat"}[form]
-            if c["nin"] == 1:
+                      "reduceat": "reduceat", "at": "at"}[form]
+            if form == "at":
+                # ufunc.at(a, indices, b): three inputs reach __array_ufunc__
+                ops = operand_wire(E, a) + operand_wire(E, [0]) + operand_wire(E, b)
+                nin = 3
+            elif c["nin"] == 1:
                 ops = operand_wire(E, a)
                 nin = 1
             else:
@@ -633,7 +652,7 @@ class Ufuncs:
         replies = self.ask(lines)
         # second pass: cases in which NumPy itself refuses the stripped call
         redo = []
-        for c, rep in zip(self.cases, replies):
+        for c, rep in zip(cases, replies):
             c["rep"] = rep
             if rep[0] == "ok" and rep[5] != "none":
                 # the second operand is cast to a float dtype before the kernel runs: ask NumPy again
@@ -648,7 +667,7 @@ class Ufuncs:
             reps2 = self.ask(["\t".join(c["line_head"] + [c["kernel_err"], c["kernel_shape"], c["wrap"]]) for c in redo])
             for c, rep in zip(redo, reps2):
                 c["rep"] = rep
-        for c in self.cases:
+        for c in cases:
             self.compare(c)
             self.oracle(c)
 
@@ -904,7 +923,7 @@ class Ufuncs:
         for x in (a, b):
             if isinstance(x, (list, tuple)) and any(hasattr(o, "units") for o in x) and all_zero([float(o) for o in x]):
                 return "ufunc|zero-quantity-list"
-        return f"ufunc|{uname}|{form}|{c['ka']}|{c['kb']}"
+        return f"ufunc|{uname}|{form}"
 
 
 # ----------------------------------------------------------------------------------------
@@ -937,6 +956,13 @@ def helper_cases(E, tier):
         trees.append(f"[[{x}, {y}], [{z}]]")
     if tier == "quick":
         trees = trees[:: 3]
+    # longer collections: the odd one out in every position
+    for n in (4, 5, 7):
+        for odd in range(n):
+            for base, other in (("m", "s"), ("J", "dimensionless"), ("dimensionless", "percent")):
+                items = [f"unyt_array([1.0, 2.0], {(other if i == odd else base)!r})" for i in range(n)]
+                trees.append("(" + ", ".join(items) + ")")
+                trees.append("[" + ", ".join(items[:2]) + ", [" + ", ".join(items[2:]) + "]]")
     return U, leaves, trees
 
 
@@ -1025,7 +1051,11 @@ def run_helpers(chk, E, tier):
 #  group of argument names whose values meet (as in Ref.C01.mergingFunctions), family: merge|compare)
 AF = [
     ("concatenate", "np.concatenate([P, S])", ["arrays"], "merge"),
+    ("concatenate", "np.concatenate([P, P, P, P, S])", ["arrays"], "merge"),
+    ("concatenate", "np.concatenate([P, S, P, P, P])", ["arrays"], "merge"),
     ("stack", "np.stack([P, S])", ["arrays"], "merge"),
+    ("vstack", "np.vstack([P, P, P, S, P])", ["tup"], "merge"),
+    ("where", "np.where([True, False, True], S, P)", ["x", "y"], "merge"),
     ("vstack", "np.vstack([P, S])", ["tup"], "merge"),
     ("hstack", "np.hstack([P, S])", ["tup"], "merge"),
     ("dstack", "np.dstack([P, S])", ["tup"], "merge"),
@@ -1221,7 +1251,10 @@ def run_setitem_to(chk, E, tier, seed):
                 exp.append(("setitem", (a, b, form), st, before, after))
             if da != db and not em:
                 if st[0] == "ok":
-                    key = "setitem|dimensionless-quantity" if db == "1" else f"setitem|quantity|{form}"
+                    if ub == E.unyt.Unit():       # compares equal to NULL_UNIT: the documented-in-code shortcut
+                        key = "setitem|dimensionless-quantity"
+                    else:
+                        key = f"setitem|quantity|{form}" + ("|dimensionless-scaled" if db == "1" else "")
                     chk.count("oracle:FAIL " + key)
                     chk.fail(key, f"x[{a}] {stmt} with v in {b}: stored although the dimensions differ",
                              {"python": ENV_SRC + setup + "try:\n    " + stmt + "\nexcept Exception:\n    pass\nelse:\n    raise AssertionError(f'stored: {x!r}')\n"})
@@ -1419,6 +1452,49 @@ def run_witnesses(chk, E):
         chk.disagree("witness", "int_out_retyped_counterexample: the real code no longer retypes")
 
 
+def _ufunc_worker(args):
+    """one share of the ufunc enumeration in a forked worker; returns what the main check merges"""
+    tier, seed, part, nparts, ref_ufuncs = args
+    core.quiet_numpy()
+    chk = core.Check("C01", tier, seed)
+    E = Env()
+    X = json.load(open(os.path.join(core.BUILD, "extract_c01_ufuncs.json"), encoding="utf-8"))
+    X["registry_rows_d"] = {r[0]: {"rule": r[1], "ufunc": r[2], "nin": r[3], "nout": r[4]} for r in X["registry_rows"]}
+    uf = Ufuncs(chk, E, X, tier, seed, ref_ufuncs)
+    uf.enumerate()
+    try:
+        uf.execute(part, nparts)
+    except Exception as e:  # noqa: BLE001
+        import traceback
+        chk.disagree("harness", f"ufunc worker {part} crashed: {traceback.format_exc()[-800:]}")
+    # one failure per key is enough for the report (the first in enumeration order)
+    fails = {}
+    for key, what, replay in chk.failures:
+        fails.setdefault(key, (key, what, replay))
+    return {"evaluations": chk.evaluations, "nontrivial": chk.nontrivial, "hist": chk.hist, "samples": chk.samples,
+            "failures": list(fails.values()), "disagreements": chk.disagreements[:200], "ndis": len(chk.disagreements)}
+
+
+def run_ufuncs_parallel(chk, tier, seed, ref_ufuncs, nproc=4):
+    import multiprocessing as mp
+
+    ctx = mp.get_context("fork")
+    with ctx.Pool(nproc) as pool:
+        results = pool.map(_ufunc_worker, [(tier, seed, i, nproc, ref_ufuncs) for i in range(nproc)])
+    for r in results:                      # merged in worker order: deterministic
+        chk.evaluations += r["evaluations"]
+        chk.nontrivial |= r["nontrivial"]
+        for k, v in r["hist"].items():
+            chk.count(k, v)
+        for s_ in r["samples"]:
+            if len(chk.samples) < 12:
+                chk.samples.append(s_)
+        chk.failures += r["failures"]
+        chk.disagreements += r["disagreements"]
+        if r["ndis"] > len(r["disagreements"]):
+            chk.count("disagreements-not-listed", r["ndis"] - len(r["disagreements"]))
+
+
 def run(tier, seed):
     chk = core.Check("C01", tier, seed)
     chk.proof = core.prove("C01", PROOF_MODULES, extra_targets=("drv_c01",), tier=tier)
@@ -1442,9 +1518,7 @@ def run(tier, seed):
     for fn, args in ref_rows:
         if (fn, tuple(args.split(","))) not in cat:
             chk.disagree("c01.ref.merging", f"reference row {fn}:{args} has no call template in the harness catalogue")
-    uf = Ufuncs(chk, E, X, tier, seed, ref_ufuncs)
-    uf.enumerate()
-    uf.execute()
+    run_ufuncs_parallel(chk, tier, seed, ref_ufuncs)
     run_helpers(chk, E, tier)
     run_array_functions(chk, E, tier, seed, XH["handled"])
     run_setitem_to(chk, E, tier, seed)
